@@ -28,7 +28,7 @@ import os
 import time
 import traceback
 
-from mc import env
+from mc import env, cover
 from mc.canon import digest
 from mc.report import Violation, HarnessError
 
@@ -105,7 +105,7 @@ def _expand(task):
                 out.append(('harness', hist, op, str(e)))
             except Exception:
                 out.append(('harness', hist, op, traceback.format_exc()))
-    return out
+    return out, cover.drain()
 
 
 def explore(driver, rep, part=None, max_depth=None, max_states=None,
@@ -120,6 +120,7 @@ def explore(driver, rep, part=None, max_depth=None, max_states=None,
     workers = workers or env.WORKERS
     t0 = time.time()
     _DRIVER = driver
+    cover.start()
 
     ctx0 = driver.initial()
     driver.check(ctx0)
@@ -158,7 +159,8 @@ def explore(driver, rep, part=None, max_depth=None, max_states=None,
                 results = map(_expand, tasks)
             nxt = []
             stop = None
-            for res in results:
+            for res, lines in results:
+                rep.covered |= lines
                 for kind, hist, op, data in res:
                     if kind == 'harness':
                         raise HarnessError(f'{part}: after {hist!r} op {op!r}:'
@@ -250,7 +252,7 @@ def _run_chunk(cases):
             out.append(('harness', case, str(e)))
         except Exception:
             out.append(('harness', case, traceback.format_exc()))
-    return out
+    return out, cover.drain()
 
 
 def enumerate_cases(runner, cases, rep, part, rule_nontrivial=None,
@@ -265,6 +267,7 @@ def enumerate_cases(runner, cases, rep, part, rule_nontrivial=None,
     global _RUNNER
     workers = workers or env.WORKERS
     _RUNNER = runner
+    cover.start()
     t0 = time.time()
     cases = list(cases)
     tasks = [cases[i:i + chunk] for i in range(0, len(cases), chunk)]
@@ -279,7 +282,8 @@ def enumerate_cases(runner, cases, rep, part, rule_nontrivial=None,
     try:
         results = pool.imap(_run_chunk, tasks) if pool else map(_run_chunk,
                                                                  tasks)
-        for res in results:
+        for res, lines in results:
+            rep.covered |= lines
             for kind, case, data in res:
                 if kind == 'harness':
                     raise HarnessError(f'{part}: case {case!r}:\n{data}')
